@@ -133,6 +133,9 @@ def gen_turn(r: random.Random, w: World, acc: List[str], p_empty: float, p_cance
         return []
     ops = []
     for _ in range(r.randint(1, max_ops)):
+        if r.random() < 0.02:
+            ops.append({"k": "open"})
+            continue
         if r.random() < p_cancel:
             if r.random() < 0.08:
                 ops.append({"k": "recancel", "m": r.randrange(len(acc)), "nth": r.randrange(6)})
@@ -357,7 +360,7 @@ def gen_world(r: random.Random, profile: str) -> Dict[str, Any]:
                           max_normal=r.choice([None, 0, 1, 2, n_n, n_n + 1]),
                           max_hft=r.choice([None, 0, 1, 2, n_hft, n_hft + 1]),
                           rate=r.choice([None, 0, 0.0, 0.3, 0.7, 1, 1.0]),
-                          legacy=False)
+                          legacy=r.random() < 0.1)
     else:
         session_layout(r, w, r.randint(1, 4), r.choice([4, 10, 20]), p_noexec=0.3, p_noplace=0.12)
         if not any(s["withOrderExecution"] and s["withOrderPlacement"] for s in w.sessions):
